@@ -651,8 +651,11 @@ class FmtStr:
                 if end - start == chunk.width:
                     parts.append(chunk)
                 else:
+                    # not clamped to 0: a chunk that begins inside the slice keeps
+                    # its leading zero-width characters (they combine with the
+                    # last character of the previous chunk, which is in the slice)
                     s_part = width_aware_slice(
-                        chunk.s, max(0, index.start - counter), index.stop - counter
+                        chunk.s, index.start - counter, index.stop - counter
                     )
                     parts.append(Chunk(s_part, chunk.atts))
             counter += chunk.width
